@@ -789,6 +789,18 @@ func (g *Gen) drawBatch(t *rapid.T, k string) (Op, bool) {
 	if op.Q && g.IllegalQuerySteps && rapid.IntRange(0, 2).Draw(t, "illq") == 0 {
 		op.Script = []QStep{{K: rapid.SampledFrom([]string{"at!neg", "at!count", "step!0", "step!neg"}).Draw(t, "illqk")}}
 	}
+	if op.Q {
+		// how the returned query is advanced: scripted Step(n) calls, an early Close
+		switch rapid.IntRange(0, 5).Draw(t, "qadvance") {
+		case 0, 1:
+			ns := rapid.IntRange(1, 4).Draw(t, "nsteps")
+			for i := 0; i < ns; i++ {
+				op.Script = append(op.Script, QStep{K: "step", N: rapid.SampledFrom([]int{1, 1, 2, 3, 5, 9}).Draw(t, "stepn")})
+			}
+		case 2:
+			op.Script = append(op.Script, QStep{K: "closeafter", N: rapid.IntRange(0, 3).Draw(t, "closeafter")})
+		}
+	}
 	f := g.baseFilter(t, inc, ex)
 	op = g.withFilterChoice(t, op, f)
 	if op.Reg {
